@@ -78,4 +78,6 @@ def count_nested(df, nested, by=None, join=True) -> NestedFrame:
     # else just return the counts NestedFrame
     if isinstance(counts, pd.Series):  # for by=None, which returns a Series
         counts = NestedFrame(counts.to_frame())
+    elif not isinstance(counts, NestedFrame):  # for by=..., where Series.apply returns a plain DataFrame
+        counts = NestedFrame(counts)
     return counts
